@@ -377,3 +377,23 @@ func (c *Conv) call(e *ast.CallExpr) (string, error) {
 	}
 	return "", fmt.Errorf("call outside the fragment")
 }
+
+// FloatTypesAgreeAt reports whether, for every binary expression inside root, go/types and the model agree
+// on "the left operand is float" (they differ for constant sub-expressions in float context, whose operands
+// go/types leaves untyped int: such roots are outside the fragment of checkers that look at operand types
+// node by node).
+func (c *Conv) FloatTypesAgreeAt(root ast.Expr) bool {
+	ok := true
+	ast.Inspect(root, func(n ast.Node) bool {
+		if b, isBin := n.(*ast.BinaryExpr); isBin {
+			for _, x := range []ast.Expr{b.X, b.Y} {
+				t, _ := c.TypeOf(x)
+				if hasFloatProp(c.Info.TypeOf(x)) != (t == "TFloat") {
+					ok = false
+				}
+			}
+		}
+		return ok
+	})
+	return ok
+}
